@@ -3,7 +3,7 @@
    interval query returns exactly the filter of the chromosome's entries, the item count is the
    number of entries, the autoSql comes back verbatim and the chromosome table is the table of the
    chromosomes that had data.  Put together from: BedAssemble (layout of the file), BedReadInfo
-   (header, chromosome tree), BedFile (index + blocks), BedCodec, BedQuery. *)
+   (header, chromosome tree), BedImage (index + blocks), BedCodec, BedQuery. *)
 From Coq Require Import Sorting.Sorted.
 From BT Require Import Base.Util Base.LE Base.Float Generated.Consts Model.RTree Model.BBIFile Model.BigWigWrite Model.BBIRead
   Model.BigBedWrite Model.BBIReadBed Proofs.Chunks Proofs.RTreeAbs Proofs.RTreeBuild Proofs.RTreeCodec
